@@ -10,8 +10,21 @@
   Theorems that carry `(fixed : Bool)` hold for both versions of the code.
   The two parts of the property the pinned tree violates are stated as `Prop`s of the flag, proved
   for `true` and refuted with a concrete history for `false`.
+
+  Second half of the file (from "the full job object" on): the extension `Model/C17X.lean` — time and
+  progress fields, `Job.name`, `_to_dict` / `_from_dict` / `from_id`, `execute_sync` — with the
+  theorems that tie it to the machine above (projection / refinement), so that every theorem of the
+  first half also speaks about the full object.
+
+  Not modelled (see manifest.d/C17.json): `requests`/`RPCHandler` internals, the payload
+  (`_create_payload_data`, `_handle_params`, max_shots/max_samples), result post-processing
+  (`job_context` / `result_mapping`), `_running_phase`, the 1 ms sleep of `update_progress` when the
+  clock runs backwards, the `metadata` of the dictionary, non-integer times, threads.
 -/
 import PercevalModel.Lemmas.C17
+import PercevalModel.Lemmas.C17X
+
+set_option linter.unusedSimpArgs false
 
 namespace PM.C17
 open PM.SM
@@ -615,5 +628,382 @@ theorem negative_delay_every_read_due (fixed : Bool) (delay : Int) (t : TJob) (n
     simp [this]
 
 example : (-1 : Int) < 0 ∧ (3 : Int) ≤ 3 := by decide
+
+/-! # the full job object (`Model/C17X.lean`)
+
+## time / progress fields: the status does not depend on them -/
+
+/-- The job part (status, id, streak, stop message, cache) after a status read on the full object —
+whatever the time state of the object, the time of the call, and the progress / creation / start /
+duration fields of the answer, consistent or not — is exactly what the base machine computes from
+the `status` / `status_message` of the answer; the requests are the same.  Both versions. -/
+theorem full_status_read_projects (fixed : Bool) (f : FJob) (now : Int) (r : RespF) :
+    (readStatusF fixed f now r).1.job = (readStatus fixed f.job r.base).1 ∧
+    (readStatusF fixed f now r).2.2 = (readStatus fixed f.job r.base).2.2 :=
+  ⟨readStatusF_job fixed f now r, readStatusF_calls fixed f now r⟩
+
+/-- … in particular two answers that differ only in those fields, read by objects that differ only
+in their time state, at different times, leave the same job part -/
+theorem status_independent_of_time_fields (fixed : Bool) (f : FJob) (ts' : TS) (now now' : Int)
+    (s : String) (m : Nat) (b b' : Body) :
+    (readStatusF fixed f now (.status s m b)).1.job =
+      (readStatusF fixed { f with ts := ts' } now' (.status s m b')).1.job := by
+  rw [readStatusF_job, readStatusF_job]
+  rfl
+
+/-- With a body a consistent server can send (no duration without a start time) the read also
+raises exactly what the base machine raises (nothing on a successful answer). -/
+theorem full_status_read_outcome (fixed : Bool) (f : FJob) (now : Int) (r : RespF) (hwf : r.WF) :
+    (readStatusF fixed f now r).2.1 = (readStatus fixed f.job r.base).2.1.map FExc.base :=
+  readStatusF_exc fixed f now r hwf
+
+example : (RespF.status "running" 1 ⟨2, some 1, some 2, some 3⟩).WF := by decide
+
+/-- the interference channel is real: `update_progress` turns a WAITING status into RUNNING … -/
+theorem update_progress_starts_a_waiting_job (ts : TS) (now : Int) (p : Nat) :
+    (updateProgress .waiting ts now p).1 = .running ∧
+    (updateProgress .waiting ts now p).2.runStart = some now := by
+  simp [updateProgress]
+
+/-- … but `RemoteJob.status` only calls it when the status just read is RUNNING / CANCEL_REQUESTED,
+where it leaves the status alone -/
+theorem update_progress_keeps_running_status (st : St) (h : st.isRunning = true) (ts : TS) (now : Int)
+    (p : Nat) : (updateProgress st ts now p).1 = st :=
+  updateProgress_status h ts now p
+
+example : St.cancelRequested.isRunning = true := by decide
+
+/-- Quirk of the code as it is (not judged by the property): a final status whose answer carries a
+duration, read by a job that was never given a start time, raises TypeError out of `status` —
+after the status was stored. -/
+theorem time_fields_type_error_witness :
+    (readStatusF true ⟨born 1, TS.fresh 0, true, "j"⟩ 5 (.status "canceled" 7 ⟨0, some 1, none, some 5⟩)).2.1 =
+      some .typeError ∧
+    (readStatusF true ⟨born 1, TS.fresh 0, true, "j"⟩ 5 (.status "canceled" 7 ⟨0, some 1, none, some 5⟩)).1.job.status =
+      .canceled := by
+  decide +kernel
+
+/-- a completed job whose answer carries a start time `x` and a duration `y` is dated `x + y` and
+reports `y` as its running time -/
+theorem completed_time_law (fixed : Bool) (f : FJob) (now : Int) (s : String) (m : Nat) (b : Body)
+    (x y : Int) (hd : statusDue f.job = true) (hc : (fromServer s).completed = true)
+    (hx : nz b.start = some x) (hy : nz b.duration = some y) :
+    (readStatusF fixed f now (.status s m b)).1.ts.completedAt = some (x + y) ∧
+    (readStatusF fixed f now (.status s m b)).1.ts.runStart = some x ∧
+    runningTime (fromServer s) (readStatusF fixed f now (.status s m b)).1.ts = .val y := by
+  have hr : (fromServer s).isRunning = false := by
+    cases h : fromServer s <;> simp_all [St.completed, St.isRunning]
+  have hy0 : nz (some y) = some y := by
+    cases hb : b.duration with
+    | none => simp [hb, nz] at hy
+    | some z =>
+      simp only [hb, nz] at hy
+      split at hy
+      · cases hy
+      · rename_i hz
+        cases hy
+        simp [nz, hz]
+  simp [readStatusF, hd, hr, updateTimes, hx, hy, hc, runningTime, hy0]
+
+example : nz (some 2) = some 2 ∧ (fromServer "completed").completed = true := by decide +kernel
+
+/-- One step of the full machine on a base operation (bodies a consistent server can send, job
+built with request data) is the step of the base machine on the job part. -/
+theorem full_step_refines_base (fixed : Bool) (f : FJob) (t : TOp) (bop : Op)
+    (hb : t.op.base? = some bop) (hwf : t.op.WF) (hbody : f.hasBody = true) :
+    (fstep fixed f t).1.job = (step fixed f.job bop).1 ∧
+    (fstep fixed f t).2 = ⟨.base (step fixed f.job bop).2.res, (step fixed f.job bop).2.calls⟩ ∧
+    (fstep fixed f t).1.hasBody = true :=
+  fstep_base fixed f t bop hb hwf hbody
+
+/-- Whole histories: for every list of base operations at any times, with any (consistent) time /
+progress fields in the answers, the full machine produces the outputs of the base machine and ends
+in the same job part.  Hence every theorem of the first half of this file holds of the full object. -/
+theorem full_machine_refines_base (fixed : Bool) (ts : List TOp) (f : FJob) (hbody : f.hasBody = true)
+    (hts : ∀ t ∈ ts, t.op.base?.isSome = true ∧ t.op.WF) :
+    (run (fstep fixed) f ts).1.job = (run (step fixed) f.job (ts.filterMap (·.op.base?))).1 ∧
+    (run (fstep fixed) f ts).2 = (run (step fixed) f.job (ts.filterMap (·.op.base?))).2.map Out.lift :=
+  ⟨(frun_base fixed ts f hbody hts).1, (frun_base fixed ts f hbody hts).2.1⟩
+
+example : (finit 3 "verif").hasBody = true ∧
+    ∀ t ∈ [(⟨4, .execute (.ok 1)⟩ : TOp), ⟨5, .poll .status (.status "running" 2 ⟨2, some 1, some 2, none⟩)⟩],
+      t.op.base?.isSome = true ∧ t.op.WF := by
+  refine ⟨rfl, ?_⟩
+  intro t ht
+  simp only [List.mem_cons, List.mem_nil_iff, or_false] at ht
+  rcases ht with rfl | rfl
+  · exact ⟨rfl, trivial⟩
+  · exact ⟨rfl, by show (RespF.status "running" 2 ⟨2, some 1, some 2, none⟩).WF; decide⟩
+
+/-! ## `Job.name`, `_to_dict`, `_from_dict`, `from_id` -/
+
+/-- `RunningStatus[str(status)]` is the status -/
+theorem status_name_roundtrip (s : St) : St.ofName s.name = some s := St.ofName_name s
+
+/-- a job name is never empty, and assigning a name twice changes nothing -/
+theorem job_name_never_empty (s : String) : setName s ≠ "" ∧ setName (setName s) = setName s :=
+  ⟨setName_ne_empty s, setName_of_ne_empty (setName_ne_empty s)⟩
+
+/-- `_from_dict(_to_dict(job))`, for every job that can be written (it has request data or is
+SUCCESS; a SUCCESS job was sent): the identifier survives; the status survives if the job was sent
+(an unsent job comes back WAITING); the error streak, the stop message and the cached results do
+not; the time state is fresh; a SUCCESS job loses its request data and its name. -/
+theorem dict_roundtrip (f : FJob) (now : Int)
+    (hb : f.hasBody = true ∨ f.job.status.isSuccess = true)
+    (hs : f.job.status.isSuccess = true → f.job.id.isSome = true) :
+    ∃ d, toDict f = .ok d ∧
+      fromDict d now = .ok ⟨restoreJ f.job, TS.fresh now, !f.job.status.isSuccess,
+        if f.job.status.isSuccess then "unnamed" else setName f.name⟩ :=
+  toDict_fromDict f now hb hs
+
+example : (finit 0 "j").hasBody = true ∨ (finit 0 "j").job.status.isSuccess = true := Or.inl rfl
+
+/-- a sent job keeps identifier and status through the dictionary -/
+theorem reopen_keeps_id_and_status (j : Job) (h : j.id.isSome = true) :
+    (restoreJ j).id = j.id ∧ (restoreJ j).status = j.status := by
+  simp [restoreJ, h]
+
+example : (born 3).id.isSome = true := rfl
+
+/-- The two ghost fields of the model (submission count, last successful read) are ghosts: two
+jobs that agree on identifier, status, streak, stop message and cache produce the same outputs over
+every history, and keep agreeing.  Both versions. -/
+theorem ghost_fields_irrelevant (fixed : Bool) (ops : List Op) (j j' : Job) (h : core j = core j') :
+    core (run (step fixed) j ops).1 = core (run (step fixed) j' ops).1 ∧
+    (run (step fixed) j ops).2 = (run (step fixed) j' ops).2 :=
+  run_core fixed ops j j' h
+
+example : core (born 1) = core { born 1 with sentCount := 5, lastRead := some .running } := rfl
+
+/-- A sent job with no failure streak, no stop message and no cached results, re-created from its
+dictionary, behaves for EVERY later history exactly like the original: same return values, same
+exceptions, same requests, step by step (so: status follows the server, no second submission,
+results guard, … — everything the first half of this file proves).  Both versions. -/
+theorem reopened_job_behaves_like_original (fixed : Bool) (j : Job) (ops : List Op)
+    (hid : j.id.isSome = true) (h0 : j.streak = 0) (hm : j.msg = .none) (hc : j.cache = none) :
+    (run (step fixed) (restoreJ j) ops).2 = (run (step fixed) j ops).2 ∧
+    core (run (step fixed) (restoreJ j) ops).1 = core (run (step fixed) j ops).1 := by
+  have : core (restoreJ j) = core j := by simp [core, restoreJ, hid, h0, hm, hc]
+  exact ⟨(run_core fixed ops _ _ this).2, (run_core fixed ops _ _ this).1⟩
+
+example : (born 1).id.isSome = true ∧ (born 1).streak = 0 ∧ (born 1).msg = .none ∧ (born 1).cache = none := by
+  decide
+
+/-- What is lost otherwise, by witnesses: (1) the streak counter restarts — after four absorbed
+failures the original raises the fifth, the re-created job absorbs it; -/
+theorem reopen_restarts_streak_witness :
+    (step true { born 1 with streak := 4 } (.poll .status .conn)).2.res = .raised .conn ∧
+    (step true (restoreJ { born 1 with streak := 4 }) (.poll .status .conn)).2.res = .st .waiting := by
+  decide
+
+/-- (2) a job whose creation request failed (unsent, ERROR) comes back as a fresh unsent WAITING job
+that can be submitted; (3) the failure message of a failed job is forgotten. -/
+theorem reopen_forgets_witness :
+    (step true { init with status := .error, msg := .createFailed, sentCount := 1 } (.execute (.ok 2))).2.res =
+      .raised .assertion ∧
+    (step true (restoreJ { init with status := .error, msg := .createFailed, sentCount := 1 }) (.execute (.ok 2))).2 =
+      ⟨.ok, [.create]⟩ ∧
+    (getResults true (restoreJ { born 1 with status := .error, msg := .server 3 }) .conn .conn .missing).2.res =
+      .raised (.jobFailed .none) := by
+  decide
+
+/-- A final status survives the dictionary and stays final for ever: for every later history on the
+re-created job its status and id never change and no status request is sent.  Both versions. -/
+theorem final_survives_reopen (fixed : Bool) (j : Job) (post : List Op) (hid : j.id.isSome = true)
+    (hfin : j.status.completed = true) (hns : ∀ op ∈ post, op.switches = false) :
+    (exec (step fixed) (restoreJ j) post).status = j.status ∧
+    (exec (step fixed) (restoreJ j) post).id = j.id ∧
+    ∀ o ∈ (run (step fixed) (restoreJ j) post).2, ∀ c ∈ o.calls, isStatusCall c = false := by
+  obtain ⟨h1, h2⟩ := reopen_keeps_id_and_status j hid
+  have := final_absorbing fixed (restoreJ j) post (by rw [h2]; exact hfin) hns
+  rw [h1, h2] at this
+  exact this
+
+example : ({ born 1 with status := .canceled } : Job).id.isSome = true ∧
+    ({ born 1 with status := .canceled } : Job).status.completed = true := by decide
+
+/-- `from_id(n)`: one status request for job `n`; if it raises (fatal HTTP error; a first
+transient failure is absorbed) no object is returned and the exception is the one the base machine
+raises; otherwise the object is the job `n` (born sent, WAITING) after that status read, named
+"resumed", without request data. -/
+theorem resumed_job_follows_server (fixed : Bool) (n : Nat) (now : Int) (r : RespF) (hwf : r.WF) :
+    (fromId fixed n now r).2.1 = (readStatus fixed (born n) r.base).2.1.map FExc.base ∧
+    (fromId fixed n now r).2.2 = (readStatus fixed (born n) r.base).2.2 ∧
+    ((readStatus fixed (born n) r.base).2.1 = none →
+      ∃ f', (fromId fixed n now r).1 = some f' ∧ f'.job = (readStatus fixed (born n) r.base).1 ∧
+        f'.hasBody = false ∧ f'.name = "resumed") ∧
+    ((readStatus fixed (born n) r.base).2.1 ≠ none → (fromId fixed n now r).1 = none) := by
+  have hj := readStatusF_job fixed ⟨born n, TS.fresh now, false, setName "resumed"⟩ now r
+  have hc := readStatusF_calls fixed ⟨born n, TS.fresh now, false, setName "resumed"⟩ now r
+  have he := readStatusF_exc fixed ⟨born n, TS.fresh now, false, setName "resumed"⟩ now r hwf
+  have hh := readStatusF_hasBody fixed ⟨born n, TS.fresh now, false, setName "resumed"⟩ now r
+  simp only [fromId]
+  generalize readStatusF fixed ⟨born n, TS.fresh now, false, setName "resumed"⟩ now r = p at hj hc he hh
+  generalize readStatus fixed (born n) r.base = q at hj hc he
+  obtain ⟨f1, e, c⟩ := p
+  obtain ⟨j1, e', c'⟩ := q
+  simp only at hj hc he hh
+  subst hj hc he
+  cases e' with
+  | some e => simp
+  | none =>
+    refine ⟨rfl, rfl, fun _ => ⟨f1, rfl, rfl, hh.1, ?_⟩, fun h => absurd rfl h⟩
+    rw [hh.2]
+    decide +kernel
+
+example : (RespF.status "error" 1 ⟨0, none, none, none⟩).WF := by decide
+
+/-- A job re-created from its id behaves like the original from the first successful status read
+on: if the original (sent, unfinished) had no stop message and no cached results, then after
+reading the same answer both agree on identifier, status, streak, message and cache — hence
+(`ghost_fields_irrelevant`) on every later history. -/
+theorem resumed_job_behaves_like_original (fixed : Bool) (j : Job) (n : Nat) (s : String) (m : Nat)
+    (ops : List Op) (hid : j.id = some n) (hd : statusDue j = true) (hm : j.msg = .none)
+    (hc : j.cache = none) :
+    (run (step fixed) (readStatus fixed (born n) (.status s m)).1 ops).2 =
+      (run (step fixed) (readStatus fixed j (.status s m)).1 ops).2 := by
+  have hb : statusDue (born n) = true := by simp [statusDue, born, St.completed]
+  have : core (readStatus fixed (born n) (.status s m)).1 = core (readStatus fixed j (.status s m)).1 := by
+    simp only [readStatus, hd, hb, Bool.not_true, Bool.false_eq_true, if_false, core]
+    simp [born, hid, hm, hc]
+  exact (run_core fixed ops _ _ this).2
+
+example : (born 4).id = some 4 ∧ statusDue (born 4) = true ∧ (born 4).msg = .none ∧ (born 4).cache = none := by
+  decide
+
+/-- Quirk of the code as it is (observed on the real code, not judged by the property statement):
+a failed job re-created with `from_id` has no request data, `rerun()` builds the dictionary of the
+new job with `_to_dict()` before asking the server, and that raises TypeError: no rerun request. -/
+theorem resumed_failed_job_cannot_rerun_witness :
+    (fstep true ⟨{ born 1 with status := .error }, TS.fresh 0, false, "resumed"⟩
+      ⟨1, .rerun .conn .conn (.ok 2) true⟩).2 = ⟨.typeError, []⟩ := by
+  decide +kernel
+
+/-- Sent at most once, through everything: on the repaired code, once the job has an identifier,
+no history of operations of the full machine — polls, cancel, rerun (also followed into the new
+job), get_results, `_to_dict`, re-creation from the dictionary (`reopen`) or from the id (`resume`),
+renaming, `execute_async`, `execute_sync` — ever calls `create_job`, and the job stays sent. -/
+theorem sent_job_never_creates (f : FJob) (ts : List TOp) (hs : f.job.id.isSome = true) :
+    (exec (fstep true) f ts).job.id.isSome = true ∧
+    ∀ o ∈ (run (fstep true) f ts).2, Call.create ∉ o.calls :=
+  ⟨inv_exec (fstep true) (fun f => f.job.id.isSome = true) (fun s op h => (fstep_sent s op h).1) f hs ts,
+   outputs_run (fstep true) (fun f => f.job.id.isSome = true) (fun o => Call.create ∉ o.calls)
+     (fun s op h => fstep_sent s op h) f hs ts⟩
+
+example : (⟨born 1, TS.fresh 0, true, "j"⟩ : FJob).job.id.isSome = true := rfl
+
+/-! ## `execute_sync` -/
+
+/-- The polling loop is a fold over the server's answers: it uses up a prefix of them, its outputs
+are the outputs of the `is_complete` polls over that prefix and its final state is the state after
+them (so the streak law, `status_is_last_read`, … govern every iteration). -/
+theorem sync_loop_is_run_of_polls (fixed : Bool) (j : Job) (rs : List Resp) :
+    (syncLoop fixed j rs).2.1.length ≤ rs.length ∧
+    (syncLoop fixed j rs).1 =
+      exec (step fixed) j ((rs.take (syncLoop fixed j rs).2.1.length).map (Op.poll .isComplete)) ∧
+    (syncLoop fixed j rs).2.1 =
+      (run (step fixed) j ((rs.take (syncLoop fixed j rs).2.1.length).map (Op.poll .isComplete))).2 := by
+  have h := loopUntil_run (fun j r => step fixed j (.poll .isComplete r)) Out.isRaise Out.isDone j rs
+  have conv : ∀ (l : List Resp) (j : Job),
+      run (fun j r => step fixed j (.poll .isComplete r)) j l =
+        run (step fixed) j (l.map (Op.poll .isComplete)) := by
+    intro l
+    induction l with
+    | nil => intro j; rfl
+    | cons r l ih => intro j; simp [run, ih]
+  unfold syncLoop
+  obtain ⟨h1, h2, h3⟩ := h
+  simp only [exec] at h2 ⊢
+  rw [conv] at h2 h3
+  exact ⟨h1, h2, h3⟩
+
+/-- It ends exactly when a poll raises or reports completion: every poll but the last returned
+"not complete" without raising; the loop is `complete` iff the last poll returned True (and then
+the job holds a final status), `raised` iff the last poll raised (what `status` raised — nothing is
+added or swallowed), and otherwise all answers are used up and the loop would go on. -/
+theorem sync_loop_end (fixed : Bool) (j : Job) (rs : List Resp) :
+    match (syncLoop fixed j rs).2.2 with
+    | .pending => (syncLoop fixed j rs).2.1.length = rs.length ∧
+        ∀ x ∈ (syncLoop fixed j rs).2.1, x.isRaise = false ∧ x.isDone = false
+    | .raised => ∃ pre o, (syncLoop fixed j rs).2.1 = pre ++ [o] ∧ o.isRaise = true ∧
+        ∀ x ∈ pre, x.isRaise = false ∧ x.isDone = false
+    | .complete => (∃ pre o, (syncLoop fixed j rs).2.1 = pre ++ [o] ∧ o.isRaise = false ∧ o.isDone = true ∧
+        ∀ x ∈ pre, x.isRaise = false ∧ x.isDone = false) ∧
+        (syncLoop fixed j rs).1.status.completed = true := by
+  have h := loopUntil_end (fun j r => step fixed j (.poll .isComplete r)) Out.isRaise Out.isDone j rs
+  have hc := syncLoop_complete fixed j rs
+  unfold syncLoop at hc ⊢
+  cases he : (loopUntil (fun j r => step fixed j (.poll .isComplete r)) Out.isRaise Out.isDone j rs).2.2 with
+  | pending => rw [he] at h; exact h
+  | raised => rw [he] at h; exact h
+  | complete => rw [he] at h; exact ⟨h, hc he⟩
+
+/-- once the job is final, `get_results` does not look at the server's status answers any more -/
+theorem results_after_final_ignore_server (fixed : Bool) (j : Job) (r1 r2 : Resp) (g : RResp)
+    (h : j.status.completed = true) :
+    getResults fixed j r1 r2 g = getResults fixed j .conn .conn g := by
+  have hnd := statusDue_of_completed h
+  simp [getResults, readStatus_not_due hnd]
+
+/-- `execute_sync` sends exactly one creation request when `execute_async` accepts the job (unsent,
+WAITING) — whatever the server answers afterwards, however long the loop runs — and none otherwise. -/
+theorem sync_one_create (fixed : Bool) (j : Job) (h : HResp) (rs : List Resp) (g : RResp) :
+    countCreate (executeSync fixed j h rs g).2.calls = if canExecute fixed j then 1 else 0 := by
+  have hx := execute_calls fixed j h
+  unfold executeSync
+  generalize execute fixed j h = p at hx
+  obtain ⟨j0, eo⟩ := p
+  simp only at hx
+  have hcount : countCreate eo.calls = if canExecute fixed j then 1 else 0 := by
+    rw [hx]; split <;> simp [countCreate]
+  cases hres : eo.res with
+  | ok =>
+    simp only [hres]
+    have hl := syncLoop_noCreate fixed j0 rs
+    generalize syncLoop fixed j0 rs = q at hl
+    obtain ⟨j1, outs, e⟩ := q
+    simp only at hl
+    have hflat : countCreate (List.map (fun x => x.calls) outs).flatten = 0 := by
+      apply countCreate_flatten_zero
+      intro l hl'
+      simp only [List.mem_map] at hl'
+      obtain ⟨o, ho, rfl⟩ := hl'
+      exact hl o ho
+    cases e <;> simp [SyncOut.calls, countCreate_append, hflat, hcount, getResults_noCreate, countCreate]
+  | st s => simp [hres, SyncOut.calls, countCreate_append, hcount, countCreate]
+  | flag b => simp [hres, SyncOut.calls, countCreate_append, hcount, countCreate]
+  | newJob n => simp [hres, SyncOut.calls, countCreate_append, hcount, countCreate]
+  | results t => simp [hres, SyncOut.calls, countCreate_append, hcount, countCreate]
+  | raised e => simp [hres, SyncOut.calls, countCreate_append, hcount, countCreate]
+
+/-- `execute_sync` on the full object (time fields, name; the k-th poll at `now + k·d`) is
+`execute_sync` on the base machine: same job part afterwards, same requests, same number of polls
+and sleeps, same outcome. -/
+theorem sync_full_refines_base (fixed : Bool) (f : FJob) (now : Int) (h : HResp) (rs : List RespF)
+    (g : RResp) (d : Int) (hwf : ∀ r ∈ rs, r.WF) (hb : f.hasBody = true) :
+    (executeSyncF fixed f now h rs g d).1.job = (executeSync fixed f.job h (rs.map RespF.base) g).1 ∧
+    (executeSyncF fixed f now h rs g d).2 =
+      ⟨(executeSync fixed f.job h (rs.map RespF.base) g).2.toFRes,
+       (executeSync fixed f.job h (rs.map RespF.base) g).2.calls⟩ :=
+  executeSyncF_base fixed f now h rs g d hwf hb
+
+/-- With the real throttle: when the sleep between two polls is longer than the refresh delay (the
+shipped values: 3 s vs 1 s) and the first poll is due, every iteration of the loop is a request —
+the clocked loop is the plain loop, for every list of answers (fuel = any bound above their number). -/
+theorem sync_clocked_is_plain_when_spaced (fixed : Bool) (delay d : Int) (hd : delay < d)
+    (rs : List Resp) (fuel : Nat) (t : TJob) (now : Int) (hdue : statusDue t.job = true)
+    (hnow : now - t.prev > delay) (hf : rs.length < fuel) :
+    (syncLoopAt fixed delay d fuel t now rs).1.job = (syncLoop fixed t.job rs).1 ∧
+    (syncLoopAt fixed delay d fuel t now rs).2 = (syncLoop fixed t.job rs).2 :=
+  syncLoopAt_eq fixed delay d hd rs fuel t now hdue hnow hf
+
+example : (4 : Int) < 12 ∧ statusDue (⟨born 1, 0⟩ : TJob).job = true ∧ (100 : Int) - 0 > 4 := by decide
+
+/-- … whereas with a sleep shorter than the delay some iterations ask nothing (sleep 2, delay 4:
+two silent polls between two requests) -/
+theorem sync_throttled_witness :
+    ((syncLoopAt true 4 2 20 ⟨born 1, 0⟩ 100 [.status "running" 2, .status "completed" 2]).2.1.map (·.calls)) =
+      [[.status (some 1)], [], [], [.status (some 1)]] := by
+  decide +kernel
 
 end PM.C17
